@@ -95,6 +95,11 @@ Section Finer.
         G r c = (Some lo, Some hi) /\ prescribed pr pc lo hi.
 End Finer.
 
+(* the index contract of an order-0 zoom by sf of an axis of n samples: every output index reads
+   an input index of the axis, at most one away from its geometric parent *)
+Definition zoom_contract (sf n : Z) (z : Z -> Z) : Prop :=
+  forall o, 0 <= o < sf * n -> 0 <= z o < n /\ near_parent sf o (z o).
+
 (* ------------------------------------------------------------------ observing a trace *)
 
 Definition ev_scale (e : ev) : Z := match e with Ev _ _ sc _ => sc end.
